@@ -80,7 +80,11 @@ class AnmCases:
             return
         a = args[0]
         colA = ("sub", ("self", "A"), ("tuple", (FULL, self.i)))
-        masks = [("cmp", "!=", colA, ("const", 0)), ("method", colA, "astype", (("extref", "bool"),), ())]
+        masks = [("cmp", "!=", colA, ("const", 0)), ("method", colA, "astype", (("extref", "bool"),), ()),
+                 # index lists in increasing order select the same columns in the same order as the boolean mask
+                 ("ext", "numpy.flatnonzero", (colA,), ()), ("sub", ("ext", "numpy.nonzero", (colA,), ()), ("const", 0)),
+                 ("sub", ("ext", "numpy.where", (("cmp", "!=", colA, ("const", 0)),), ()), ("const", 0)),
+                 ("ext", "numpy.flatnonzero", (("cmp", "!=", colA, ("const", 0)),), ())]
         pa_sorted = ("ext", "sorted", (("call", U + "pa", (self.i, ("self", "A")), (("A", ("self", "A")), ("i", self.i))),), ())
         ok = a[0] == "sub" and a[1] == self.X and a[2][0] == "tuple" and len(a[2][1]) == 2 and a[2][1][0] == FULL and \
             (a[2][1][1] in masks or a[2][1][1] == pa_sorted)
@@ -104,6 +108,7 @@ def run(prog, rep, tier):
     f = need(prog, AN + "sample")
     S = Sym(prog, inline=inline_helpers(prog, "sempler.anm"))
     summ, _ = run_function(S, f)
+    model_history(rep, S, f, {"A", "p", "ordering", "assignments", "noise_distributions"}, "HISTORY.sample")
     loops = [(k, v) for k, v in S.loopinfo.items() if v["func"] == f.qname]
     if len(loops) != 1:
         raise Inconclusive("ANM.sample: expected exactly one loop over the variables", f.node)
@@ -141,7 +146,8 @@ def run(prog, rep, tier):
     # SHAPE
     zeros = ("ext", "numpy.zeros", (("tuple", (n, ("self", "p"))),), ())
     rets = S.select("return", qname=f.qname)
-    ok = li["init"].get(name) == zeros and len(rets) == 1 and rets[0].value == ("after", lid, name)
+    # np.empty is as good as np.zeros here: the loop runs over self.ordering, a permutation of all p columns, and writes each
+    ok = zeros_of(li["init"].get(name), shapes=[zeros[2][0]], allow_empty=True) and len(rets) == 1 and rets[0].value == ("after", lid, name)
     rep.check("SHAPE.result", ok, fwhere(f), "result = zeros((n, self.p)) filled column by column", "result is not the n x p array filled by the loop")
     rep.check("STATE.sample", not S.select("attrstore", qname=f.qname), fwhere(f), "sample does not touch the model's attributes", "sample rebinds model attributes")
     # constructor
@@ -151,8 +157,12 @@ def run(prog, rep, tier):
     st = {a.attr: a.value for a in Sc.select("attrstore", qname=fc.qname)}
     PA = ("param", "A")
     topo = ("call", U + "topological_ordering", (PA,), (("A", PA),))
-    rep.check("ORDER.ctor", st.get("ordering") == topo, fwhere(fc), "self.ordering = topological_ordering(A)", "self.ordering is %s" % fmt(st.get("ordering", ("const", None))))
-    okA = st.get("A") in (("ext", "copy.deepcopy", (PA,), ()), ("method", PA, "copy", (), ()), ("ext", "numpy.array", (PA,), ()), ("ext", "numpy.copy", (PA,), ()))
+    copies = (("ext", "copy.deepcopy", (PA,), ()), ("method", PA, "copy", (), ()), ("ext", "numpy.array", (PA,), ()), ("ext", "numpy.copy", (PA,), ()))
+    o_ = st.get("ordering", ("const", None))
+    # the ordering is computed from the argument or from the (value-equal) copy that is stored
+    oko = o_ == topo or (o_[0] == "call" and o_[1] == U + "topological_ordering" and len(o_[2]) == 1 and o_[2][0] in copies and o_[2][0] == st.get("A"))
+    rep.check("ORDER.ctor", oko, fwhere(fc), "self.ordering = topological_ordering(A)", "self.ordering is %s" % fmt(o_))
+    okA = st.get("A") in copies
     rep.check("ORDER.same-matrix", okA, fwhere(fc), "self.A is a copy of the matrix that was ordered", "self.A is %s, not a copy of A" % fmt(st.get("A", ("const", None))))
     rep.check("SHAPE.p", st.get("p") in (("ext", "len", (PA,), ()), ("sub", ("attr", PA, "shape"), ("const", 0))), fwhere(fc), "p = len(A)", "self.p is %s" % fmt(st.get("p", ("const", None))))
     a = st.get("assignments")
